@@ -1,4 +1,143 @@
-(* C07 — placeholder while the model is being tied; replaced by the theorem file. *)
-From WK Require Import Base.Base Model.MsgStore Model.MsgStore_C07.
-Example c07_stub : C07_monitor (C07Case false [] []) = 0.
-Proof. reflexivity. Qed.
+(* C07 — The message store behaves as a faithful sequential log.
+   Model: Model/MsgStore.v over Model/KV.v (typed ChannelLog API, compatibility
+   appends / Truncate, lease release, database reopen).  Specification = the
+   monitor: Model/MsgStore_C07.v (one plain list of rows + log end per channel).
+   All theorems hold for EVERY implementation of the negative membership filter
+   (F, f_empty, f_may, f_add arbitrary, no soundness needed here), for histories
+   of any length over the harness' channels; the multi-channel StoreAppendBatch
+   op is excluded ([op_ok]). *)
+From WK Require Import Base.Base Model.KV Gen.Consts_C07 Model.MsgStore Model.MsgStore_C07
+     Proof.KV Proof.MsgStore_base Proof.MsgStore_rel Proof.MsgStore_reads Proof.MsgStore_C07.
+
+(* Forward simulation: every model step, together with the read-back the harness
+   performs after it, is a step the plain sequential logs accept, and the
+   relation R (store = rows of the plain log, indexes exact / sound, recoverable
+   log end) holds again. *)
+Theorem c07_refines :
+  forall (F : Type) (f_empty : F) (f_may : F -> bytes * bytes -> bool) (f_add : F -> bytes * bytes -> F)
+         (compact : bool) (st : mstate F) (s : aspec) (o : op),
+    R F st s -> op_ok o ->
+    let '(st', x, ds) := step_dump F f_empty f_may f_add compact st o in
+    exists s', spec_step s (E o x ds) = Some s' /\ R F st' s'.
+Proof. exact step_sim. Qed.
+Print Assumptions c07_refines.
+
+(* The monitor evaluated on the implementation's traces is the conclusion of
+   this theorem evaluated on the model's traces: every history of the model
+   passes it. *)
+Theorem c07_model_satisfies_monitor :
+  forall (F : Type) (f_empty : F) (f_may : F -> bytes * bytes -> bool) (f_add : F -> bytes * bytes -> F)
+         (compact : bool) (ops : list op),
+    Forall op_ok ops ->
+    spec_run as_init (entries ops (snd (run F f_empty f_may f_add compact (st_init F f_empty) ops))) = true.
+Proof. exact model_satisfies_monitor. Qed.
+Print Assumptions c07_model_satisfies_monitor.
+
+(* ... in particular for the executable instance used by the correspondence check *)
+Theorem c07_monitor_zero_on_model :
+  forall (compact : bool) (ops : list op) (kv : list kvent),
+    Forall op_ok ops ->
+    C07_monitor (C07Case compact (entries ops (snd (xrun compact ops))) kv) = 0.
+Proof. exact monitor_zero_on_model. Qed.
+Print Assumptions c07_monitor_zero_on_model.
+
+(* Contiguity: in every reachable state the rows of a channel are strictly
+   ascending, lie in [1, LEO], every sequence above the logical retention boundary
+   up to LEO is present, and the cached log end is the recoverable one. *)
+Theorem c07_contiguous :
+  forall (F : Type) (st : mstate F) (s : aspec) (c : N),
+    R F st s ->
+    let rows := rows_of (st_kv F st) c in
+    let leo := snd (loadLEOLocked F st c) in
+    sorted_lt r_seq rows
+    /\ Forall (fun r => 1 <= r_seq r <= leo) rows
+    /\ (forall q, local_of (st_kv F st) c < q <= leo -> exists r, In r rows /\ r_seq r = q)
+    /\ leo = recoverLEO (st_kv F st) c.
+Proof. exact contiguous. Qed.
+Print Assumptions c07_contiguous.
+
+(* Reopening the database is the identity on everything the API shows. *)
+Theorem c07_reopen_id :
+  forall (F : Type) (f_empty : F) (st : mstate F) (s : aspec) (c : N),
+    R F st s ->
+    R F (reopen F f_empty st) s
+    /\ st_kv F (reopen F f_empty st) = st_kv F st
+    /\ snd (loadLEOLocked F (reopen F f_empty st) c) = snd (loadLEOLocked F st c).
+Proof. exact reopen_identity. Qed.
+Print Assumptions c07_reopen_id.
+
+(* Every reachable state is related to the plain logs (so the three theorems above apply to it). *)
+Theorem c07_reachable :
+  forall (F : Type) (f_empty : F) (f_may : F -> bytes * bytes -> bool) (f_add : F -> bytes * bytes -> F)
+         (compact : bool) (ops : list op),
+    Forall op_ok ops ->
+    exists s, R F (fst (run F f_empty f_may f_add compact (st_init F f_empty) ops)) s.
+Proof. exact reachable_R. Qed.
+Print Assumptions c07_reachable.
+
+(* Lookup soundness, as a property of what the monitor accepts: a message
+   returned by GetByMessageID / LookupIdempotency is a stored row of that channel
+   with the requested id / pair; an accepted dump shows exactly the log. *)
+Theorem c07_lookup_sound_byid :
+  forall s c i m, spec_check_read s (OById c i) (XMsgO (Some m)) = true ->
+                  In m (amsgs (as_log s c)) /\ m_id m = i.
+Proof. exact accepted_byid_sound. Qed.
+Print Assumptions c07_lookup_sound_byid.
+
+Theorem c07_lookup_sound_idem :
+  forall s c uid cno q i off h,
+    spec_check_read s (OIdem c uid cno) (XHit (Some (q, i, off, h))) = true ->
+    exists m, In m (amsgs (as_log s c)) /\ m_seq m = q /\ m_id m = i /\ m_hash m = h /\ m_uid m = uid /\ m_cno m = cno.
+Proof. exact accepted_idem_sound. Qed.
+Print Assumptions c07_lookup_sound_idem.
+
+Theorem c07_dump_exact :
+  forall s nr c leo rows news,
+    spec_check_dump s nr (D c (inl leo) (inl rows) (inl news)) = true ->
+    leo = al_leo (as_log s c) /\ rows = map mcompact (amsgs (as_log s c)).
+Proof. exact accepted_dump_exact. Qed.
+Print Assumptions c07_dump_exact.
+
+(* ---- non-vacuity -------------------------------------------------------------------------------- *)
+
+Definition ex_rec (i : N) (uid cno : string) : rec :=
+  MsgStore.R i (hx cno) (hx uid) [97] 5%Z 0 0 0.
+
+(* a history with appends in all modes, a duplicate, a trim, truncations, reopen and lookups *)
+Definition ex_ops : list op :=
+  [ OAppend 0 0 0 [ex_rec 1 "7531" "6e31"; ex_rec 2 "" "6e32"; ex_rec 3 "7532" ""];
+    OAppend 0 0 0 [ex_rec 4 "7531" "6e31"];
+    OApply 0 4 [ex_rec 4 "7531" "6e33"] (Some (1, 0, 2)) (Some (1, 3));
+    OTrim 0 1 0%Z 0%Z; OTrunc 0 4; OReopen; OLeo 0; ORead 0 0 0%Z 0%Z;
+    OIdem 0 (hx "7531") (hx "6e31"); OById 0 2; OByCno 0 (hx "6e32") 0 5%Z; OLastS 0 (hx "7532") 9;
+    OCApp 1 1 [ex_rec 9 "7533" "6e39"]; OCTrunc 1 0; ORelease 0; OHist 0; OLoadCk 0 ].
+
+Example c07_ex_ops_ok : Forall op_ok ex_ops.
+Proof. repeat (constructor; [split; [cbn; tauto|exact I]|]). constructor. Qed.
+
+(* the model does something on it: 3 rows stored, the duplicate rejected, the
+   trim deletes row 1, the truncation row 4; after reopen LEO = 3 and rows 2, 3 remain *)
+Example c07_ex_run :
+  map fst (snd (xrun true ex_ops)) =
+  [ XApp 1 3 3; XErr EConflict; XApp 4 4 1; XTrim 1 1 false; XOk; XOk; XN 3;
+    XMsgs [M 2 2 0 (hx "6e32") [] (hashPayload [97]) [97] 5%Z; M 3 3 0 [] (hx "7532") (hashPayload [97]) [97] 5%Z];
+    XHit None; XMsgO (Some (M 2 2 0 (hx "6e32") [] (hashPayload [97]) [97] 5%Z));
+    XPage [M 2 2 0 (hx "6e32") [] (hashPayload [97]) [97] 5%Z] false 0; XNO (Some 3);
+    XN 0; XOk; XOk; XPairs [(3, 1)]; XTriple (Some (1, 0, 2)) ].
+Proof. vm_compute. reflexivity. Qed.
+
+(* the monitor is not vacuous: it rejects a dump that shows a hole (LEO 5 after a
+   truncation to 3), the signature of the former defect fixed by /repo 729a3b8e5 *)
+Example c07_monitor_rejects_resurrected_leo :
+  C07_monitor (C07Case true
+    [E (OAppend 0 0 0 [ex_rec 1 "" ""; ex_rec 2 "" ""; ex_rec 3 "" ""; ex_rec 4 "" ""; ex_rec 5 "" ""]) (XApp 1 5 5) [];
+     E (OTrim 0 2 0%Z 0%Z) (XTrim 2 2 false) []; E (OTrunc 0 4) XOk [];
+     E OReopen XOk [D 0 (inl 5) (inl [(3, 3, hashPayload [97])]) (inl []);
+                    D 1 (inl 0) (inl []) (inl []); D 2 (inl 0) (inl []) (inl [])]] []) = 1.
+Proof. vm_compute. reflexivity. Qed.
+
+(* ... and a row that reads back unreadable (former defect fixed by /repo 61f0866ae) *)
+Example c07_monitor_rejects_unreadable_row :
+  C07_monitor (C07Case false
+    [E (OAppend 0 0 0 [MsgStore.R 5 [] [] [] 7%Z 0 0 0]) (XApp 1 1 1) [D 0 (inl 1) (inr ECorruptState) (inr ECorruptState)]] []) = 1.
+Proof. vm_compute. reflexivity. Qed.
